@@ -166,6 +166,73 @@ def run_check(tier, seed):
                 tie_diffs.append(('retention requested but no log file left', hints))
             if nfail >= 3:
                 break
+        # ---- S4c: log-size boundaries.  The shared-log layer works in 8 MiB blocks; a log append / flush read whose end offset falls
+        #      exactly on (or one element before / after) a multiple of the block size must not be lost.  Per rank: one large
+        #      put that fills the log (8-byte log header + data) up to `target - k*esz`, then small puts across the boundary;
+        #      close; reopen WITHOUT the burst buffer; every boundary element read back (values known: index + 0.5-free ints).
+        BLK = 8388608
+        nbound = 0
+        for (xt, mt, esz) in (('double', 'double', 8), ('int', 'int', 4)) if nfail < 3 else ():
+            for shared in (True, False):
+                shutil.rmtree(bbdir, ignore_errors=True); os.makedirs(bbdir)
+                nprocs = 2
+                ncol = BLK // esz + 64
+                hints = 'nc_burst_buf=enable;nc_burst_buf_dirname=%s;nc_burst_buf_overwrite=enable' % bbdir + (';nc_burst_buf_shared_logs=enable' if shared else '')
+                name = 'c12bd_%d.nc' % nbound
+                big = (BLK - 8) // esz - 6            # elements of the first put: the log then ends 6 elements before the block boundary
+                L = ['1 * create %s 5 clobber %s' % (name, hints), '2 * def_dim r %d' % nprocs, '3 * def_dim c %d' % ncol, '4 * def_var v %s 2 r c' % xt, '5 * enddef']
+                # the large put: values 1..; to keep the script short the harness fills values cyclically when fewer are given
+                L.append('6 * begin_indep')
+                texts = {r: 'put vara i v %s c %d,0 1,%d - - : %s' % (mt, r, big, ' '.join(str((i % 97) + 1) for i in range(8))) for r in range(nprocs)}   # only the first values are given: the rest of the buffer keeps the harness' fill pattern, it is there for its size
+                st = 7
+                for r in range(nprocs):
+                    L.append('%d %d %s' % (st, r, texts[r]))
+                st += 1
+                small = list(range(big, big + 12))
+                for c in small:
+                    for r in range(nprocs):
+                        L.append('%d %d put var1 i v %s c %d,%d - - - : %d' % (st, r, mt, r, c, (c % 89) + 3))
+                    st += 1
+                L.append('%d * end_indep' % st); st += 1
+                L.append('%d * close' % st); st += 1
+                L.append('%d * open %s r -' % (st, name)); st += 1
+                probes = [0, 1, 7] + small
+                g0 = st
+                for c in probes:
+                    for r in range(nprocs):
+                        L.append('%d %d get var1 i v %s c %d,%d - - -' % (st, r, mt, r, c))
+                    st += 1
+                L.append('%d * close' % st)
+                # the probes are read with collective var1 gets (one line per rank per step)
+                text = '\n'.join(l.replace(' get var1 i ', ' get var1 c ') if ' get var1 i ' in l else l for l in L) + '\n'
+                # collective var1 gets need every rank in every step: already the case (one line per rank per step)
+                sp = os.path.join(wd, 'bound_%d.txt' % os.getpid())
+                open(sp, 'w').write(text)
+                rc, impl, err = apicmp.run_impl(exe, sp, nprocs, wd, timeout=300, alarm=120)
+                nbound += 1
+                api_lines += len(impl)
+                got = {}
+                for l in impl:
+                    t = l.split()
+                    if len(t) > 4 and t[2] == 'get' and int(t[0]) >= g0:
+                        got[(int(t[0]) - g0, int(t[1]))] = (t[3], t[-1])
+                bad = []
+                for i, c in enumerate(probes):
+                    exp = (c % 97) + 1 if c < big else (c % 89) + 3
+                    for r in range(nprocs):
+                        if got.get((i, r)) != ('0', str(exp)):
+                            bad.append((r, c, got.get((i, r)), exp))
+                left = os.listdir(bbdir)
+                tags['boundary-%s-%s' % (xt, 'shared' if shared else 'per-process')] = 1
+                distinct.add('boundary %s %s' % (xt, shared))
+                if rc != 0 or bad or left:
+                    if V.failing_input('C12:log-boundary', 'puts whose log entries end at / next to the 8 MiB block boundary of the log are not all in the file after close: rc=%s wrong (rank, column, got, expected) %s, log files left %s' % (rc, bad[:4], left[:3]),
+                                       dict(script_head=text[:600] + ' ... ' + text[-1500:], nprocs=nprocs, hints=hints, first_put_elements=big), tag='bd%d' % nfail):
+                        nfail += 1
+                try:
+                    os.unlink(os.path.join(wd, name))
+                except OSError:
+                    pass
         V.cov['evaluations'] = n_unit + api_lines
         V.cov['distinct_nontrivial'] = len(distinct)
         V.cov['traces_validated_against_impl'] = n_unit + nprog
